@@ -164,7 +164,10 @@ class Campaign:
         self.stats["serial_traces"] += 1
         self.stats["states"] += v["distinct"]
         ok = v["verdict"] == "ok"
-        return {"dir": mdir, "ok": ok, "why": None if ok else "serial trace not accepted by SeqSim: %s %s" % (
+        # (a model with many identical simultaneous events for one LP makes the validation of its serial log branch; when TLC does not finish in
+        # its time limit the model is left out - it cannot serve as an oracle - and counted, which is neither a verdict nor a failure of the check)
+        skipped = (not ok) and bool(v.get("timeout"))
+        return {"dir": mdir, "ok": ok, "skipped": skipped, "why": None if ok else "serial trace not accepted by SeqSim: %s %s" % (
             v["verdict"], json.dumps(v.get("res"))), "family": family, "mseed": mseed, "ref": ref,
             "model": os.path.join(mdir, "model.json"), "txt": os.path.join(mdir, "model.txt"), "nlps": m["nlps"], "v": v}
 
@@ -288,7 +291,10 @@ class Campaign:
         for md in mds:
             self.stats["models"] += 1
             if not md["ok"]:
-                self.machinery.append({"property": "C10", "what": md["why"], "model": (md["family"], md["mseed"])})
+                if md.get("skipped"):
+                    self.stats["models_skipped"] = self.stats.get("models_skipped", 0) + 1
+                else:
+                    self.machinery.append({"property": "C10", "what": md["why"], "model": (md["family"], md["mseed"])})
                 continue
             cs = [sample_cfg(r, emphasis) for _ in range(cfgs_per_model)] + list(fixed_cfgs or [])
             if md["family"] == "chain":
@@ -425,7 +431,10 @@ class Campaign:
             md = self.prepare_model(fm[0], fm[1], fm[2] if len(fm) > 2 else "medium")
             self.stats["models"] += 1
             if not md["ok"]:
-                self.machinery.append({"property": "C10", "what": md["why"], "model": (fm[0], fm[1])})
+                if md.get("skipped"):
+                    self.stats["models_skipped"] = self.stats.get("models_skipped", 0) + 1
+                else:
+                    self.machinery.append({"property": "C10", "what": md["why"], "model": (fm[0], fm[1])})
                 continue
             ser = os.path.join(md["dir"], "frozen_serial.ndjson")
             rc, out = run_twh(self.bdir, ["--model", md["txt"], "--out", ser, "--serial", "--quiet-core", "--freeze"], timeout=60)
@@ -475,7 +484,10 @@ class Campaign:
         md = self.prepare_model(family, mseed, size)
         self.stats["models"] += 1
         if not md["ok"]:
-            self.machinery.append({"property": "C10", "what": md["why"], "model": (family, mseed)})
+            if md.get("skipped"):
+                self.stats["models_skipped"] = self.stats.get("models_skipped", 0) + 1
+            else:
+                self.machinery.append({"property": "C10", "what": md["why"], "model": (family, mseed)})
             return
 
         def one(ic):
@@ -694,7 +706,7 @@ class Campaign:
                "driver_lines_validated": self.stats.get("driver_lines", 0), "conformance_divergences": self.stats.get("divergences", 0),
                "model_checking_runs": self.stats.get("mc", []), "model_checking_reachability_probes": self.stats.get("mc_probes", []),
                "design_level_reproduction_of_known_findings": self.stats.get("mc_known", []),
-               "tlc_behaviours_replayed_in_real_code": self.stats.get("replay", []), "phase_wall_s": self.stats.get("phase_wall_s", []), "single_delay_sweep_runs": self.stats.get("sweep_runs", 0), "real_thread_runs": self.stats.get("real", {}), "gvt_protocol_conformance_divergences": self.stats.get("gvt_conf", {}),
+               "tlc_behaviours_replayed_in_real_code": self.stats.get("replay", []), "phase_wall_s": self.stats.get("phase_wall_s", []), "single_delay_sweep_runs": self.stats.get("sweep_runs", 0), "real_thread_runs": self.stats.get("real", {}), "models_left_out_serial_validation_timeout": self.stats.get("models_skipped", 0), "gvt_protocol_conformance_divergences": self.stats.get("gvt_conf", {}),
                "conformance_divergence_kinds": self.stats.get("divergence_kinds", {}),
                "micro_model_runs_on_real_code": self.stats.get("micro_runs", 0), "micro_model_distinct_interleavings": self.stats.get("micro_distinct", 0),
                "exhaustive": False}
